@@ -118,6 +118,23 @@ theorem concat_rechunk_maps (n : Nat) (et : String) (xs ys : List KVs) :
     EqvE (concatMaps srcCfg n et xs >>= fun r => concatMaps srcCfg n et (r :: ys)) (concatMaps srcCfg n et (xs ++ ys)) :=
   concatMaps_rechunk srcCfg (by decide) n et xs ys
 
+/-- **chunk boundaries inside a chunk (maps of every type).** A map chunk may be delivered as
+    two consecutive chunks holding its entries `m1` and `m2`. -/
+theorem concat_split_chunk (n : Nat) (et : String) (xs ys : List KVs) (m1 m2 : KVs) :
+    concatMaps srcCfg n et (xs ++ [m1 ++ m2] ++ ys) = concatMaps srcCfg n et (xs ++ [m1, m2] ++ ys) := by
+  simp [concatMaps]
+
+/-- **chunk boundaries inside a nested map value.** A nested map value — of *any* map type:
+    `map[string]any`, `map[string]string`, `map[string][]T`, … — stored under key `k` of a chunk
+    may be delivered in two consecutive chunks instead, each holding part of its entries
+    (`a`, `b`): the result is the same.  (This is the law a recursion restricted to
+    `map[string]any` breaks: `typed_nested_map_rechunk_breaks_without_kind_test`.) -/
+theorem concat_split_nested_map (n : Nat) (et : String) (xs ys : List KVs) (pre post : KVs) (k e : String) (a b : KVs) :
+    concatMaps srcCfg n et (xs ++ [pre ++ (k, .map e (a ++ b)) :: post] ++ ys) =
+    concatMaps srcCfg n et (xs ++ [pre ++ [(k, .map e a)], (k, .map e b) :: post] ++ ys) := by
+  have h := concatEvs_split_nested srcCfg (by decide) n et (xs.flatten ++ pre) (post ++ ys.flatten) k e a b
+  simpa [concatMaps, List.flatten_append, List.append_assoc] using h
+
 /-- **concat_rechunk through `concatStreamReader`** (empty stream = error, one chunk = that
     chunk untouched, otherwise `ConcatItems`) for string, map and message chunks. -/
 theorem concat_rechunk_stream_strs (xs ys : List String) (h : xs ≠ []) :
